@@ -42,7 +42,7 @@ pub fn run(ctx: &mut Ctx) {
     for (n, ok) in r9::selftest(ctx.shard == 0) {
         ctx.selftest(&n, ok);
     }
-    ctx.require(&["annex_g", "exact_vs_reference", "input_Z_ne_1", "input_affine", "a=N-1", "b=N-1", "a=1", "bilinearity", "nondegenerate", "order_N", "g2_Z_in_Fp2", "infinity_input"]);
+    ctx.require(&["annex_g", "exact_vs_reference", "input_Z_ne_1", "input_affine", "a=N-1", "b=N-1", "a=1", "bilinearity", "nondegenerate", "order_N", "g2_Z_in_Fp2", "infinity_input", "consecutive_negated_P", "consecutive_negated_Q"]);
     let pr = r9::params();
     // --- Annex value of g = e(P1, Ppub-s): full 384 bytes against the reference, first coefficient against the standard
     if ctx.shard == 0 {
@@ -108,6 +108,27 @@ pub fn run(ctx: &mut Ctx) {
                 }
             }
             o => ctx.violation(&format!("pairing:{}", o.class()), json!({"case": w, "outcome": format!("{:?}", o)})),
+        }
+        // immediately afterwards on related inputs: -P (same x), -Q (same x), swapped representations
+        if i % 3 == 0 {
+            let e = r9::pairing(&pa, &qa).unwrap();
+            let einv = r9::f12inv(&e).unwrap();
+            let np = r9::g1_neg(&Some(pa.clone())).unwrap();
+            let nq = r9::g2_neg(&Some(qa.clone())).unwrap();
+            let rel: Vec<(&str, gm_sm9::points::Point, gm_sm9::points::TwistPoint, &r9::F12)> = vec![
+                ("consecutive_negated_P", r9::lib_g1(&np, &l1), lq, &einv),
+                ("consecutive_negated_Q", lp, r9::lib_g2(&nq, &l2), &einv),
+                ("consecutive_both_negated", r9::lib_g1(&np, &l1), r9::lib_g2(&nq, &l2), &e),
+                ("consecutive_repeat", lp, lq, &e),
+            ];
+            for (cls, pp, qq, want) in rel {
+                ctx.eval();
+                ctx.class(cls);
+                match guard(|| hk::pairing(&qq, &pp)) {
+                    Outcome::Ret(v) if &r9::ref_f12(&v) == want => {}
+                    o => ctx.violation(&format!("pairing:{}:{}", cls, if o.is_ret() { "value-differs-from-reference" } else { o.class() }), json!({"case": w})),
+                }
+            }
         }
         if i % 40 == 0 {
             ctx.sample(json!({"pairing_case": w}));
